@@ -37,6 +37,12 @@ impl Command for CommandImpl {
             CommandResult::Error("Missing environment variable value.".to_string())
         } else if context.arguments[0].is_empty() {
             CommandResult::Error("Environment variable name is empty string.".to_string())
+        } else if context.arguments[0] != "--handle"
+            && (context.arguments[0].contains('=')
+                || context.arguments[0].contains('\0')
+                || context.arguments[1].contains('\0'))
+        {
+            CommandResult::Error("Invalid environment variable name or value.".to_string())
         } else {
             if context.arguments[0] == "--handle" {
                 let state = get_handles_sub_state(context.state);
@@ -47,9 +53,14 @@ impl Command for CommandImpl {
                     Some(state_value) => match state_value {
                         StateValue::SubState(map) => {
                             for (env_key, env_value) in map {
-                                if !env_key.is_empty() {
+                                if !env_key.is_empty()
+                                    && !env_key.contains('=')
+                                    && !env_key.contains('\0')
+                                {
                                     if let Ok(env_value_string) = get_as_string(env_value) {
-                                        env::set_var(&env_key, &env_value_string);
+                                        if !env_value_string.contains('\0') {
+                                            env::set_var(&env_key, &env_value_string);
+                                        }
                                     }
                                 }
                             }
